@@ -133,6 +133,7 @@ def events_for(st: LState):
     for i in range(n):
         for cf in (None, "above", "below"):
             ev.append(("focus", i, cf))
+    ev += [("badfocus", -1), ("badfocus", n)]
     ev += [("valign", "top"), ("valign", "middle"), ("valign", "bottom"), ("valign", ("relative", 30))]
     for s in SIZES:
         if s != st.size:
@@ -313,6 +314,9 @@ class Spec:
             ok = self._apply1(cfg, st, op[1], ctx, case) and self._apply1(cfg, st, op[2], ctx, case)
         else:
             ok = self._apply1(cfg, st, op, ctx, case)
+        st.want_focus = None
+        if not isinstance(op, str) and op[0] == "focus":
+            st.want_focus = op[1]
         if ok is not False:
             # the main loop renders after every input (a state rebuilt by replay is therefore the rendered one, like the state it was deduplicated as)
             try:
@@ -329,6 +333,9 @@ class Spec:
                     ctx.violation("no-raise", f"C07/raises/zero-row-item/{site}", case, f"render raised {e!r}")
                 else:
                     ctx.violation("no-raise", f"C07/no-raise/after-{feat}/{kinds}/{site}", case, f"the render after {op!r} raised {e!r}")
+            else:
+                if st.want_focus is not None and st.body() and st.lb.focus_position != st.want_focus:
+                    ctx.violation("focus-request", f"C07/focus-request/{st.wkind}", case, f"set_focus({st.want_focus}) followed by a render leaves focus_position at {st.lb.focus_position}")
         return ok
 
     def _apply1(self, cfg, st: LState, op, ctx: Ctx, case):
@@ -365,6 +372,15 @@ class Spec:
                     lb.mouse_event(size, "mouse press", op[1], 0, 0, True)
                 elif op[0] == "focus":
                     lb.set_focus(op[1], op[2])
+                elif op[0] == "badfocus":
+                    before = (lb.focus_position if body else None)
+                    try:
+                        lb.set_focus(op[1])
+                    except IndexError:
+                        pass
+                    else:
+                        ctx.violation("bad-position", f"C07/bad-position/{st.wkind}", case, f"set_focus({op[1]}) on a list of {len(body)} items was accepted (focus_position now {lb.focus_position if body else None!r}, before {before!r})")
+                        return False
                 elif op[0] == "valign":
                     lb.set_focus_valign(op[1])
                 elif op[0] == "resize":
